@@ -110,6 +110,9 @@ struct Ctl {
     slow_us: u64,
     nexts: u64,
     closed: bool,
+    /// bulk mode: consecutive entry ids handed over are logged as one `NextRange{a,b}` event
+    bulk: bool,
+    range: Option<(u64, u64)>,
 }
 
 /// Shared control handle for a `RecStream`.
@@ -170,6 +173,11 @@ impl StreamCtl {
     }
     pub fn flushes(&self) -> u64 {
         self.inner.0.lock().unwrap().flushes
+    }
+    /// Bulk mode (tens of thousands of entries): hand-offs of consecutive ids are coalesced into
+    /// `NextRange{a,b}` events (emitted when the run of ids breaks, before a Flush and before Close).
+    pub fn bulk(&self, on: bool) {
+        self.inner.0.lock().unwrap().bulk = on;
     }
     pub fn slow(&self, us: u64) {
         self.inner.0.lock().unwrap().slow_us = us;
@@ -238,6 +246,16 @@ impl EntryIoStream for RecStream {
             if !self.ctl.live() {
             } else if c.report {
                 trace::ev(self.tag(json!({"ev":"Report","res":res.as_str()})));
+            } else if g.bulk {
+                let id = c.id.unwrap_or(0);
+                match g.range {
+                    Some((a, b)) if id == b + 1 => g.range = Some((a, id)),
+                    Some((a, b)) => {
+                        trace::ev(self.tag(json!({"ev":"NextRange","a":a as i64,"b":b as i64})));
+                        g.range = Some((id, id));
+                    }
+                    None => g.range = Some((id, id)),
+                }
             } else {
                 trace::ev(self.tag(
                     json!({"ev":"Next","e":c.id.map(|x| x as i64).unwrap_or(-1),"res":res.as_str()}),
@@ -281,6 +299,11 @@ impl EntryIoStream for RecStream {
         let (err, slow) = {
             let mut g = self.ctl.inner.0.lock().unwrap();
             g.flushes += 1;
+            if let Some((a, b)) = g.range.take() {
+                if self.ctl.live() {
+                    trace::ev(self.tag(json!({"ev":"NextRange","a":a as i64,"b":b as i64})));
+                }
+            }
             (g.flush_err, g.flush_slow_us)
         };
         if self.ctl.live() {
@@ -302,6 +325,9 @@ impl Drop for RecStream {
         let mut g = self.ctl.inner.0.lock().unwrap();
         g.closed = true;
         if self.ctl.live() {
+            if let Some((a, b)) = g.range.take() {
+                trace::ev(self.tag(json!({"ev":"NextRange","a":a as i64,"b":b as i64})));
+            }
             trace::ev(self.tag(json!({"ev":"Close"})));
         }
         self.ctl.inner.1.notify_all();
